@@ -280,9 +280,10 @@ class Maker:
         if k == "enum":
             ci = e.repo.class_by_qual(shape.qual)
             members = ci.enum_members
-            vals = [v for n, v in members.items() if shape.only is None or n in shape.only]
-            if not all(isinstance(v, int) for v in vals):
-                raise Unsupported("symbolic non-int enum")
+            if e.enum_by_index(ci):
+                vals = [i for i, n in enumerate(members) if shape.only is None or n in shape.only]
+            else:
+                vals = [v for n, v in members.items() if shape.only is None or n in shape.only]
             t = e.T.const(name + ".value")
             st = st.assume(z3.Or(*[t == e.intval(v) for v in vals]))
             return st, EnumV(ci, t)
@@ -388,7 +389,11 @@ class Maker:
                 return None
             return self.concretise(model, shape.inner, name)
         if k == "enum":
-            return {"$enum": shape.qual, "value": e.T.model_int(model, e.T.const(name + ".value"))}
+            ci = e.repo.class_by_qual(shape.qual)
+            v = e.T.model_int(model, e.T.const(name + ".value"))
+            if e.enum_by_index(ci):
+                return {"$enum": shape.qual, "value": list(ci.enum_members.values())[v]}
+            return {"$enum": shape.qual, "value": v}
         if k in ("rec", "obj"):
             ci = e.repo.class_by_qual(shape.qual)
             finfos = e.repo.all_fields(ci) if ci.is_dataclass else []
